@@ -22,6 +22,16 @@ PContains(q, p) == POcc(p, q) # {}
 PAvoids(q, p) == POcc(p, q) = {}
 PAvoidsAll(q, B) == \A b \in B : PAvoids(q, b)
 
+\* the same definition with the position tuple found by nested quantifiers instead of by filtering the set of all
+\* tuples: for long permutations (a thousand entries) and patterns of length <= 3.  LibSanity: equal to PContains.
+PContainsQ(q, p) ==
+    LET n == Len(q) IN
+    CASE Len(p) = 0 -> TRUE
+      [] Len(p) = 1 -> n >= 1
+      [] Len(p) = 2 -> \E i \in 1..n : \E j \in (i + 1)..n : POrderIso(p, <<q[i], q[j]>>)
+      [] Len(p) = 3 -> \E i \in 1..n : \E j \in (i + 1)..n : \E k \in (j + 1)..n : POrderIso(p, <<q[i], q[j], q[k]>>)
+      [] OTHER -> PContains(q, p)
+
 \* coloured occurrences: cp colours the pattern's positions, cq the permutation's
 POccCol(p, q, cp, cq) == {t \in POcc(p, q) : \A i \in DOMAIN t : cq[t[i]] = cp[i]}
 POccColSeq0(p, q, cp, cq) == LET s == SetToSortSeq(POccCol(p, q, cp, cq), PLexLess)
